@@ -182,6 +182,9 @@ func (s *Sys) apply(op string, idx int) string {
 		after := stx.Observe(st)
 		if before != sn.obs {
 			s.r.Count("reverts_undoing_a_difference", 1)
+			if len(s.hist) >= 4 && s.hist[len(s.hist)-2] != "snap" {
+				s.r.Sample(strings.Join(s.hist, " ; "))
+			}
 			s.r.Distinct(before + "=>" + sn.obs)
 		} else {
 			s.r.Count("reverts_of_nothing", 1)
